@@ -20,7 +20,7 @@ from collections import OrderedDict
 
 import numpy as np
 
-sys.path.insert(0, "/repo")  # REPLAY-KEEP
+sys.path.insert(0, __import__("os").environ.get("VERIF_REPO", "/repo"))  # REPLAY-KEEP
 from common import close  # REPLAY-STRIP
 
 import funsor
